@@ -1,6 +1,6 @@
 CHECK = dict(
     level="fault_enumeration",
-    level_text="Fault-sequence enumeration and generated-history search against the real billstat.RuntimeRecorder with a scripted uploader: every success/failure pattern of up to six consecutive upload attempts is enumerated with a fixed set of record placements (before the upload and re-entrantly while it is in flight); rapid draws longer patterns, more devices, random and near-miss metadata (one field changed, unknown location, device IDs differing in case only), Record and Refresh calls with cancelled / expired / cancelled-in-flight contexts, and rare overlapping refreshes. After every real call the per-device equation delivered + pending (+ in flight) = recorded and the last-writer metadata of every pending/uploaded record are compared with an explicit model. A -race variant samples real goroutine schedules and checks the same at quiescence. A second unit drives the real backendpb.BillStat uploader over a scripted gRPC client stream (open/send/close faults incl. Send reporting io.EOF with the status deferred to CloseAndRecv, done and cancelled-mid-stream contexts). A further part runs the same recorder and uploader with the real grpc-go client against an in-process gRPC server on loopback whose treatment of each upload is drawn (ack with Empty, OK without a response message, status error before/in the middle of/after reading, partial read then OK, silence until the client deadline, commit then answer too late, caller cancels mid-stream, connection dropped before/mid/after commit); there the server's own commit record (RPC finished with OK from the server's side) is the oracle's 'delivered'. Held on N histories is evidence, not proof; exhaustive only for the stated placement sets.",
+    level_text="Fault-sequence enumeration and generated-history search against the real billstat.RuntimeRecorder with a scripted uploader: every success/failure pattern of up to six consecutive upload attempts is enumerated with a fixed set of record placements (before the upload and re-entrantly while it is in flight); rapid draws longer patterns, more devices, random and near-miss metadata (one field changed, unknown location, device IDs differing in case only), Record and Refresh calls with cancelled / expired / cancelled-in-flight contexts, and rare overlapping refreshes. After every real call the per-device equation delivered + pending (+ in flight) = recorded and the last-writer metadata of every pending/uploaded record are compared with an explicit model. A -race variant samples real goroutine schedules and checks the same at quiescence. A second unit drives the real backendpb.BillStat uploader over a scripted gRPC client stream (open/send/close faults incl. Send reporting io.EOF with the status deferred to CloseAndRecv, done and cancelled-mid-stream contexts). A further part runs the same recorder and uploader with the real grpc-go client against an in-process gRPC server on loopback whose treatment of each upload is drawn (ack with Empty, OK without a response message, status error before/in the middle of/after reading, partial read then OK, silence until the client deadline, commit then answer too late, caller cancels mid-stream, connection dropped before/mid/after commit); in the wire and gRPC parts the batch size is a generator dimension (1..40 devices mostly; rarely 4095/4096/4097/5000/8200/12300 devices in one upload) and the scripted fault applies to a chosen stream of an upload (1st/2nd/3rd, or the 2nd if the uploader opens one and else the only one), with what the backend accepted counted per stream answered OK; there the server's own commit record (RPC finished with OK from the server's side) is the oracle's 'delivered'. Held on N histories is evidence, not proof; exhaustive only for the stated placement sets.",
     level_note="The in-flight race is modelled by records made from inside Uploader.Upload (deterministic) and sampled with real goroutines; 'delivered' means the uploader returned nil (a failed stream is assumed to be discarded by the backend as a whole). Start times are not monotone in recording order; 'most recent query' is read as the most recently recorded one.",
     technique="property-based testing (rapid): bounded-exhaustive S/F fault patterns + stateful histories with a re-entrant scripted uploader vs a counting/last-writer model; concurrent variant under -race",
     assumptions=[
